@@ -75,18 +75,19 @@ ASSUMPTIONS = [
 
 # family -> (NameChars, MaxName, Budget, FullLen)
 TAG_CHARS = ["a", "B", "1", "_", "-", ":", "@", ".", "#", "/", " ", "\n", "\t", "\"", "'", "=", "|", ","]
-PARSE_CHARS = ["a", "1", " ", "\"", "'", "=", "/", "-"]
-E2E_CHARS = ["a", "1", "_", "-", ":", "@", ".", "#", "/", " ", "\n", "\"", "'", "=", "|"]
+PARSE_CHARS = ["a", "B", " ", "\"", "'", "=", "/", "-"]
+E2E_CHARS = ["a", "B", "1", "-", ":", "@", ".", "#", "/", " ", "\n", "\"", "'", "=", "|"]
 CONFIGS = {
     "quick": {"tags": (TAG_CHARS, 2, 0, 0), "parse": (PARSE_CHARS, 3, 3, 0), "e2e": (E2E_CHARS, 2, 0, 2)},
-    "thorough": {"tags": (TAG_CHARS, 3, 0, 0), "parse": (PARSE_CHARS + [":", "n"], 4, 4, 0),
-                 "e2e": (E2E_CHARS + ["b"], 2, 0, 3)},
+    "thorough": {"tags": (TAG_CHARS, 3, 0, 0), "parse": (PARSE_CHARS + [":", "1"], 4, 4, 0),
+                 "e2e": (E2E_CHARS + ["_"], 3, 0, 3)},
     "selftest": {"tags": (["a", "1", "-", "/", " ", "\n", "\"", "="], 2, 0, 0),
-                 "parse": (["a", " ", "\"", "'", "="], 2, 3, 0),
-                 "e2e": (["a", "-", "/", " ", "'", "="], 1, 0, 2)},
+                 "parse": (["a", "B", " ", "\"", "'", "="], 2, 3, 0),
+                 "e2e": (["a", "B", "-", "/", " ", "'", "="], 1, 0, 2)},
 }
 COMP_TEMPLATE = "[{% slot \"content\" default %}D{% endslot %}]"
 RESERVED_WORDS = {"xc", "X", "D"}
+SEPARATORS = [" ", "  ", "\t", "\n", " \n  "]
 
 
 def J(chars: List[str]) -> str:
@@ -297,7 +298,10 @@ def template_source(R: Dict[str, Any], use: Dict[str, Any]) -> str:
     e = env()
     word = J(use["word"])
     toks = [J(t) for t in use["toks"]]
-    head = " ".join([word] + toks)
+    # the white space between the words of the tag is a layout choice (blank, blanks, tab, newline),
+    # fixed per case so that replays are reproducible
+    sep = SEPARATORS[sum(len(t) for t in toks) % len(SEPARATORS)]
+    head = sep.join([word] + toks)
     if list(smart_split(head)) != [word] + toks:
         raise MachineryError(f"generator precondition: {head!r} does not split into {[word] + toks}")
     endw = J(use["endw"])
@@ -549,7 +553,10 @@ def rnd_fmt(rnd: random.Random, mode: str) -> Dict[str, Any]:
     "e2e": the formatters that have a long-lived registry (disjoint start tags)."""
     x = rnd.random()
     if x < 0.4:
-        tag = rnd_name(rnd, maxlen=8) if mode == "tags" and rnd.random() < 0.5 else rnd.choice(COMP_TAGS)
+        # "component": django_components.component_formatter by its import string (not end to end: the
+        # process-wide start-tag table would tie the word `component` to this harness's registry)
+        tag = rnd_name(rnd, maxlen=8) if mode == "tags" and rnd.random() < 0.5 else \
+            rnd.choice(COMP_TAGS + ([] if mode == "e2e" else ["component"]))
         return {"kind": "comp", "tag": C(tag), "sp": [], "ss": [], "ep": [], "es": []}
     if x < 0.75:
         return {"kind": "short", "tag": [], "sp": [], "ss": [], "ep": [], "es": []}
@@ -615,7 +622,7 @@ def gen_parse(rnd: random.Random, i: int) -> Dict[str, Any]:
             rnd.shuffle(toks)                                           # anything anywhere
         if rnd.random() < 0.1 and toks:
             j = rnd.randrange(len(toks))
-            toks[j] = rnd.choice(["name=", "name=x", "name=" + (lit or "''"), "\"\"", "''", "\"", "=", "a=", "=b"])
+            toks[j] = rnd.choice(["name=", "name=x", "name=" + (lit or "''"), "\"\"", "''", "=", "a=", "=b"])
         if rnd.random() < 0.3:
             toks.append("/")
         toks = [J(fmt["tag"])] + toks
@@ -737,14 +744,20 @@ def validate_traces(chk: Check, n_parse: int, n_tags: int, n_reg: int, n_e2e: in
     r = tlc.run("Trace_X01", str(cfg), env={"IN": str(f)}, workers=1)
     if not r.ok:
         tlc.require_ok(r, "Trace_X01")
-    acc, rej = set(), {}
+    acc, rej, devs = set(), {}, {}
     for line in r.out.splitlines():
         m = re.match(r'<<"ACCEPT", (\d+)>>', line)
         if m:
             acc.add(int(m.group(1)))
-        m = re.match(r'<<"REJECT", (\d+), 1, (\{.*\}), "([^"]*)">>', line)
+        m = re.match(r'<<"REJECT", (\d+), 1, (\{.*\})>>', line)
         if m:
-            rej[int(m.group(1))] = (m.group(2), m.group(3))
+            rej[int(m.group(1))] = m.group(2)
+        m = re.match(r'<<"DEV", (\d+), "([^"]*)">>', line)
+        if m:
+            devs[int(m.group(1))] = m.group(2)
+    if set(rej) != set(devs):
+        raise MachineryError(f"Trace_X01: REJECT / DEV lines do not pair up: {sorted(set(rej) ^ set(devs))[:10]}")
+    rej = {i: (c, devs[i]) for i, c in rej.items()}
     if len(acc) + len(rej) != len(recs):
         raise MachineryError(f"Trace_X01: {len(acc)}+{len(rej)} verdicts for {len(recs)} records\n"
                              + "\n".join(r.out.splitlines()[-30:]))
@@ -903,13 +916,33 @@ def selftest(tier: str) -> int:
         return patch(tfm, "TAG_RE", re.compile(r"^[A-Za-z0-9_\-\:\@\.\#/]+$"))
 
     def body(chk: Check) -> None:
-        # fresh long-lived registries per probe: a probe may leave tags behind
+        # The long-lived registries are kept (a start tag is bound to its registry for the life of the
+        # process); a probe may leave components / tags behind, so empty them with the unpatched code.
         e = env()
         for R in e["regs"].values():
-            drop_registry(R["reg"])
-        e["regs"].clear()
-        replay_model(chk, CONFIGS["selftest"], workers=1)
+            for n in list(R["reg"].all()):
+                try:
+                    R["reg"].unregister(n)
+                except Exception:
+                    pass
+            R["reg"]._registry.clear()
+            R["reg"]._tags.clear()
+            R["lib"].tags.clear()
+        v0 = chk.violations
+        parts = []
+        m = model_rows(CONFIGS["selftest"])
+        chk.add("states", m["states"])
+        for fam in ("tags", "parse", "e2e"):
+            for row in m["rows"][fam]:
+                bad = replay_row(row)
+                chk.count(row)
+                if bad:
+                    chk.violation({"kind": "model-case", "row": row}, bad["detail"], key=bad["key"])
+            parts.append(f"{fam}={chk.violations - v0}")
+            v0 = chk.violations
         validate_traces(chk, 500, 400, 120, 300)
+        parts.append(f"trace={chk.violations - v0}")
+        print("    killed by: " + " ".join(parts))
 
     return run_probes(PID, [
         ("component-formatter-keeps-name-kwarg", keeps_name_kwarg),
